@@ -28,6 +28,7 @@ type drainReq struct {
 	replies         int
 	replyStep       int
 	dur             time.Duration
+	noReply         bool // published without a reply subject: the server discards it (nothing to answer to)
 	bigReply        bool // its reply is larger than the broker's max_payload: the connection refuses it
 }
 
@@ -164,7 +165,11 @@ func natsdrainHarness(rc *RunCtx) {
 		r := h.reqs[id]
 		r.routedStep, r.routedAt = s.Step, s.Now()
 		frame := EncodeFrame(map[string]string{"_opid": strconv.Itoa(100000 + id), "_cid": "c", "id": strconv.Itoa(id), "_timeout": "5000"}, []byte("req"))
-		b.Route(subjects[id%len(subjects)], fmt.Sprintf("_INBOX.peer.%d", id), nil, frame)
+		reply := fmt.Sprintf("_INBOX.peer.%d", id)
+		if r.noReply {
+			reply = ""
+		}
+		b.Route(subjects[id%len(subjects)], reply, nil, frame)
 	}
 
 	s.GoRoot("main", "main", func() {
@@ -182,6 +187,11 @@ func natsdrainHarness(rc *RunCtx) {
 			// the only member of its queue group: nobody else can take what it hands back
 			bld = bld.WithQueueGroup("workers")
 			rc.Fault("server-in-a-queue-group")
+		}
+		if k := tp.Intn("watermark", 4); k >= 2 {
+			// a low high-water mark: requests that waited longer in the queue are reported (and still served)
+			bld = bld.WithHighWatermark([]time.Duration{time.Millisecond, 30 * time.Millisecond}[k-2])
+			rc.Fault("low-high-watermark")
 		}
 		srv := bld.
 			WithWorkerCount(uint(workers)).WithQueueLength(uint(qlen)).
@@ -230,6 +240,11 @@ func natsdrainHarness(rc *RunCtx) {
 		for i := 0; i < nreq; i++ {
 			id := i + 1
 			h.reqs[id] = &drainReq{id: id, dur: durChoices[tp.Intn("peer", len(durChoices))]}
+			if tp.Intn("noreply", 12) == 11 {
+				// somebody publishes to the served subject without a reply subject: discarded, and nothing else suffers
+				h.reqs[id].noReply = true
+				rc.Fault("request-without-reply-subject")
+			}
 			if smallPayload && tp.Intn("maxpayload", 4) == 0 {
 				h.reqs[id].bigReply = true
 				rc.Fault("reply-refused-by-connection-max-payload")
@@ -318,6 +333,12 @@ func natsdrainHarness(rc *RunCtx) {
 			rc.Violate("C20", "request-replied-twice", "nats", fmt.Sprintf("request %d got %d replies", id, r.replies))
 		}
 		if !finished {
+			continue
+		}
+		if r.noReply {
+			if r.handlerRuns > 0 || r.replies > 0 {
+				rc.Violate("C20", "reply-less-request-processed", "nats", fmt.Sprintf("request %d had no reply subject, yet it was processed %d times and answered %d times", id, r.handlerRuns, r.replies))
+			}
 			continue
 		}
 		inA := r.deliveredStep > 0 && stopInvokedStep > 0 && r.deliveredStep < stopInvokedStep
